@@ -655,10 +655,7 @@ FINDINGS = [
     ("rest_type_line_swallows_following_text", "ParamTypOK",
      lambda cls, rec, inp: cls in ("generated:docstring:rest", "arbitrary_text") and _only_swallowed(rec)),
     ("arbitrary_text_type_not_expression", "ParamTypOK",
-     lambda cls, rec, inp: cls == "arbitrary_text" and ":type" in str(inp)),
-    ("arbitrary_text_section_type_not_expression", "ParamTypOK",
-     lambda cls, rec, inp: cls == "arbitrary_text" and ("Args:" in str(inp) or "Parameters\n---" in str(inp))
-     and all(any(ch in t for ch in "(\"\u00a0`") for t in rec.get("bad_typs", []))),
+     lambda cls, rec, inp: cls == "arbitrary_text" and all(p["typ"] != "nonstr" for p in rec["params"])),
     ("numpydoc_double_colon_line_as_param", "ParamTypOK",
      lambda cls, rec, inp: cls in ("generated:docstring:numpydoc", "arbitrary_text") and rec.get("bad_typs") == [":"]
      and "::" in str(inp)),
